@@ -88,13 +88,32 @@ theorem ident_roundtrip_counterexample : ¬ ident_roundtrip_full := by
   revert this
   decide +kernel
 
+/-- also false for a bare name that starts with `$` (the regex lets it through): `$d` is not an identifier for the reader -/
+theorem ident_roundtrip_dollar_counterexample : ¬ ident_roundtrip_full := by
+  intro h
+  have := h .sqlite ['$', 'd'] [' '] (by decide) (by intro c hc; simp at hc; subst hc; decide)
+  revert this
+  decide +kernel
+
 theorem quote_not_word (d : Dialect) : isWordChar d.ident_quote = false := by cases d <;> decide
+
+theorem start_class_word_or_dollar :
+    ∀ r ∈ Gen.Ident.startClass, ∃ w ∈ wordStartRanges ++ [('$', '$')], w.1 ≤ r.1 ∧ r.2 ≤ w.2 := by decide
+
+theorem wordStart_of_start {c : Char} (h : Gen.Ident.inClass Gen.Ident.startClass c = true) (hd : c ≠ '$') : isWordStart c = true := by
+  have := inClass_mono start_class_word_or_dollar h
+  simp only [Gen.Ident.inClass, List.any_append, Bool.or_eq_true] at this
+  rcases this with h1 | h2
+  · exact h1
+  · simp only [List.any_cons, List.any_nil, Bool.or_false, Bool.and_eq_true, decide_eq_true_eq] at h2
+    exact absurd (Char.le_antisymm h2.2 h2.1) hd
 
 theorem classes_are_word_chars :
     (∀ r ∈ Gen.Ident.startClass, ∃ w ∈ wordRanges, w.1 ≤ r.1 ∧ r.2 ≤ w.2) ∧
     (∀ r ∈ Gen.Ident.contClass, ∃ w ∈ wordRanges, w.1 ≤ r.1 ∧ r.2 ≤ w.2) := by decide
 
-theorem bare_roundtrip (d : Dialect) (s rest : Src) (hs : s ≠ ['*']) (hv : Gen.Ident.validIdent s = true) (hrest : RestOk d rest) :
+theorem bare_roundtrip (d : Dialect) (s rest : Src) (hs : s ≠ ['*']) (hdollar : s.head? ≠ some '$')
+    (hv : Gen.Ident.validIdent s = true) (hrest : RestOk d rest) :
     sqlLexIdent d (s ++ rest) = some (s, rest) := by
   cases s with
   | nil => simp [Gen.Ident.validIdent] at hv
@@ -106,6 +125,7 @@ theorem bare_roundtrip (d : Dialect) (s rest : Src) (hs : s ≠ ['*']) (hv : Gen
       · next c' cs' heq => simp at heq; obtain ⟨rfl, rfl⟩ := heq; simpa using hv
       · next heq => simp at heq
     have hc : isWordChar c = true := inClass_mono classes_are_word_chars.1 hcls.1
+    have hst : isWordStart c = true := wordStart_of_start hcls.1 (by simpa using hdollar)
     have hcs : ∀ x ∈ cs, isWordChar x = true := by
       intro x hx
       have := List.all_eq_true.mp hcls.2 x hx
@@ -118,16 +138,17 @@ theorem bare_roundtrip (d : Dialect) (s rest : Src) (hs : s ≠ ['*']) (hv : Gen
       · exact hcs x hx
     have := takeWhile_append_stop (p := isWordChar) (c :: cs) rest hall (fun x hx => (hrest x hx).2)
     simp only [List.cons_append] at this
-    simp [sqlLexIdent, hq, hc, this.1, this.2]
+    simp [sqlLexIdent, hq, hst, this.1, this.2]
 
-/-- PARTIAL: the round trip holds for every name in which no quote character follows a backslash or another quote character -/
-theorem ident_roundtrip_partial (d : Dialect) (s rest : Src) (hs : s ≠ ['*']) (hclean : Clean d.ident_quote (Char.ofNat 0) s)
+/-- PARTIAL: the round trip holds for every name that does not start with `$` and in which no quote character follows a backslash or
+another quote character -/
+theorem ident_roundtrip_partial (d : Dialect) (s rest : Src) (hs : s ≠ ['*']) (hdollar : s.head? ≠ some '$') (hclean : Clean d.ident_quote (Char.ofNat 0) s)
     (hrest : RestOk d rest) : sqlLexIdent d (emitIdent d s ++ rest) = some (s, rest) := by
   unfold emitIdent
   split
   · next hb =>
     have hv : Gen.Ident.validIdent s = true := by simp [identBare] at hb; exact hb.1.2
-    exact bare_roundtrip d s rest hs hv hrest
+    exact bare_roundtrip d s rest hs hdollar hv hrest
   · have hr : rest.head? ≠ some d.ident_quote := fun e => (hrest _ e).1 rfl
     have := Quote.quote_roundtrip d.ident_quote s rest hr
     simp only [Model.Lit.sqlQuoteIdent, sqlEscape_clean _ _ s hclean, List.cons_append, List.append_assoc] at this ⊢
@@ -136,30 +157,31 @@ theorem ident_roundtrip_partial (d : Dialect) (s rest : Src) (hs : s ≠ ['*']) 
 example : Clean '"' (Char.ofNat 0) ['m', 'y', ' ', 'c', '"', 'o', 'l', ';', '-', '-'] := by decide
 
 /-- on the dialects that quote with a backtick every name PRQL can spell (no backtick inside) round-trips -/
-theorem ident_roundtrip_backtick_dialects (d : Dialect) (hd : d.ident_quote = '`') (s rest : Src) (hs : s ≠ ['*']) (hb : '`' ∉ s)
+theorem ident_roundtrip_backtick_dialects (d : Dialect) (hd : d.ident_quote = '`') (s rest : Src) (hs : s ≠ ['*'])
+    (hdollar : s.head? ≠ some '$') (hb : '`' ∉ s)
     (hrest : RestOk d rest) : sqlLexIdent d (emitIdent d s ++ rest) = some (s, rest) :=
-  ident_roundtrip_partial d s rest hs (by rw [hd]; exact clean_of_not_mem _ _ _ hb) hrest
+  ident_roundtrip_partial d s rest hs hdollar (by rw [hd]; exact clean_of_not_mem _ _ _ hb) hrest
 
 /-- plain doubling of the quote character would be right for EVERY name -/
-theorem ident_roundtrip_std (d : Dialect) (s rest : Src) (hs : s ≠ ['*']) (hrest : RestOk d rest) :
+theorem ident_roundtrip_std (d : Dialect) (s rest : Src) (hs : s ≠ ['*']) (hdollar : s.head? ≠ some '$') (hrest : RestOk d rest) :
     sqlLexIdent d (emitIdentStd d s ++ rest) = some (s, rest) := by
   unfold emitIdentStd
   split
   · next hb =>
     have hv : Gen.Ident.validIdent s = true := by simp [identBare] at hb; exact hb.1.2
-    exact bare_roundtrip d s rest hs hv hrest
+    exact bare_roundtrip d s rest hs hdollar hv hrest
   · have hr : rest.head? ≠ some d.ident_quote := fun e => (hrest _ e).1 rfl
     have := Quote.quote_roundtrip d.ident_quote s rest hr
     simpa [sqlLexIdent, Quote.quote] using this
 
 /-- the repair (double the quote characters before building the `Ident`) makes the round trip hold for every name -/
-theorem ident_roundtrip_patched (d : Dialect) (s rest : Src) (hs : s ≠ ['*']) (hrest : RestOk d rest) :
+theorem ident_roundtrip_patched (d : Dialect) (s rest : Src) (hs : s ≠ ['*']) (hdollar : s.head? ≠ some '$') (hrest : RestOk d rest) :
     sqlLexIdent d (emitIdentPatched d s ++ rest) = some (s, rest) := by
   unfold emitIdentPatched
   split
   · next hb =>
     have hv : Gen.Ident.validIdent s = true := by simp [identBare] at hb; exact hb.1.2
-    exact bare_roundtrip d s rest hs hv hrest
+    exact bare_roundtrip d s rest hs hdollar hv hrest
   · have hr : rest.head? ≠ some d.ident_quote := fun e => (hrest _ e).1 rfl
     have := Quote.quote_roundtrip d.ident_quote s rest hr
     simp only [Model.Lit.sqlQuoteIdent, sqlEscape_esc, List.cons_append, List.append_assoc] at this ⊢
